@@ -275,6 +275,12 @@ def model_save_quantized_weights(model, filename=None, custom_objects={}):
       elif any(isinstance(layer, t) for t in [QSimpleRNN, QLSTM, QGRU]):
         qs = layer.get_quantizers()[:-1]
         ws = layer.get_weights()
+      elif isinstance(layer, QBidirectional):
+        # Each direction reports [kernel, recurrent, bias, state] quantizers; the
+        # state quantizer has no weight.
+        qs = (layer.forward_layer.get_quantizers()[:-1] +
+              layer.backward_layer.get_quantizers()[:-1])
+        ws = layer.get_weights()
       else:
         qs = layer.get_quantizers()
         ws = layer.get_weights()
